@@ -134,6 +134,11 @@ def programs(tier, seed):
     base += [dict(label="HW#%d" % j, src=U.source(tuple(p)), argv=U.needs_flags(tuple(p))) for j, p in enumerate(U.handwritten())]
     from checks import c17
     base += [dict(label="EOF#%d" % j, src=U.source(tuple(p)), argv=["-feof-support"]) for j, p in enumerate(c17.eof_universe()) if j % (7 if tier == "quick" else 2) == seed % (7 if tier == "quick" else 2)]
+    from checks import c16
+    for j, pat in enumerate(c16.PATTERNS):
+        for ctx in ("plain", "loop"):
+            if (j + seed) % (3 if tier == "quick" else 1) == 0:
+                base.append(dict(label="WAIT#%d%s" % (j, ctx), src=U.source(c16.program(pat, ctx)), argv=[]))
     uni = progs.universe_slice(1, step=17 if tier == "quick" else 3, offset=seed) + progs.universe_slice(2, step=1201 if tier == "quick" else 67, offset=seed)
     return base + uni
 
